@@ -24,10 +24,10 @@ package ro
 //@   props C01 C02 C10 C13 C09 C06 C11
 //@   binds ctx value
 //@   scope ctx err mu observerIndex observers s status value
-//@   ensures [one-critical-section|C02,C10,C13] count(lock.mu) == 1
+//@   ensures [one-critical-section|C02,C10,C13,C06] count(lock.mu) == 1
 //@   inline (*publishSubjectImpl).broadcastNext
 //@   track observers.* elem.* hook.* call.NewNotification*
-//@   ensures [open-broadcasts-to-all|C01,C10,C09,C11] atlock(status) == 0 ==> trace(observers.Range, elem.NextWithContext(ctx, value), observers.RangeEnd)
+//@   ensures [open-broadcasts-to-all|C01,C10,C09,C11,C08] atlock(status) == 0 ==> trace(observers.Range, elem.NextWithContext(ctx, value), observers.RangeEnd)
 //@   ensures [closed-drops|C01,C10,C09] atlock(status) != 0 ==> trace(call.NewNotificationNext(value), hook.OnDroppedNotification(ctx, _))
 //@   ensures [broadcast-under-lock|C02,C10,C13] heldat(mu, elem.NextWithContext)
 //@   ensures [state-unchanged|C10,C09] atunlock(status) == atlock(status) && atunlock(err).A == atlock(err).A && atunlock(err).B == atlock(err).B
@@ -37,10 +37,10 @@ package ro
 //@   props C01 C02 C10 C13 C09 C06 C11
 //@   binds ctx err
 //@   scope ctx err mu observerIndex observers s status
-//@   ensures [one-critical-section|C02,C10,C13] count(lock.mu) == 1
+//@   ensures [one-critical-section|C02,C10,C13,C06] count(lock.mu) == 1
 //@   inline (*publishSubjectImpl).broadcastError (*publishSubjectImpl).unsubscribeAll
 //@   track observers.* elem.* hook.* call.NewNotification*
-//@   ensures [open-stores-broadcasts-clears|C01,C10,C09,C11] atlock(status) == 0 ==> atunlock(status) == 1 && atunlock(err).A == ctx && atunlock(err).B == err && trace(observers.Range, elem.ErrorWithContext(ctx, err), observers.RangeEnd, observers.Range, observers.Delete(_), observers.RangeEnd)
+//@   ensures [open-stores-broadcasts-clears|C01,C10,C09,C11,C08] atlock(status) == 0 ==> atunlock(status) == 1 && atunlock(err).A == ctx && atunlock(err).B == err && trace(observers.Range, elem.ErrorWithContext(ctx, err), observers.RangeEnd, observers.Range, observers.Delete(_), observers.RangeEnd)
 //@   ensures [closed-drops|C01,C10,C09] atlock(status) != 0 ==> trace(call.NewNotificationError(err), hook.OnDroppedNotification(ctx, _), observers.Range, observers.Delete(_), observers.RangeEnd)
 //@   ensures [broadcast-under-lock|C02,C10,C13] heldat(mu, elem.ErrorWithContext)
 //@   ensures [a-closed-subject-keeps-its-stored-terminal|C10,C09,C01] atlock(status) != 0 ==> atunlock(status) == atlock(status) && atunlock(err).A == atlock(err).A && atunlock(err).B == atlock(err).B
@@ -49,10 +49,10 @@ package ro
 //@   props C01 C02 C10 C13 C09 C06 C11
 //@   binds ctx
 //@   scope ctx err mu observerIndex observers s status
-//@   ensures [one-critical-section|C02,C10,C13] count(lock.mu) == 1
+//@   ensures [one-critical-section|C02,C10,C13,C06] count(lock.mu) == 1
 //@   inline (*publishSubjectImpl).broadcastComplete (*publishSubjectImpl).unsubscribeAll
 //@   track observers.* elem.* hook.* call.NewNotification*
-//@   ensures [open-stores-broadcasts-clears|C01,C10,C09,C11] atlock(status) == 0 ==> atunlock(status) == 2 && trace(observers.Range, elem.CompleteWithContext(ctx), observers.RangeEnd, observers.Range, observers.Delete(_), observers.RangeEnd)
+//@   ensures [open-stores-broadcasts-clears|C01,C10,C09,C11,C08] atlock(status) == 0 ==> atunlock(status) == 2 && trace(observers.Range, elem.CompleteWithContext(ctx), observers.RangeEnd, observers.Range, observers.Delete(_), observers.RangeEnd)
 //@   ensures [closed-drops|C01,C10,C09] atlock(status) != 0 ==> trace(call.NewNotificationComplete(), hook.OnDroppedNotification(ctx, _), observers.Range, observers.Delete(_), observers.RangeEnd)
 //@   ensures [broadcast-under-lock|C02,C10,C13] heldat(mu, elem.CompleteWithContext)
 //@   ensures [a-closed-subject-keeps-its-stored-terminal|C10,C09,C01] atlock(status) != 0 ==> atunlock(status) == atlock(status) && atunlock(err).A == atlock(err).A && atunlock(err).B == atlock(err).B
@@ -61,7 +61,7 @@ package ro
 //@   props C01 C02 C03 C10 C11 C13 C14 C09 C06
 //@   binds subscriberCtx destination
 //@   scope destination err index mu observerIndex observers s status subscriberCtx
-//@   ensures [one-critical-section|C02,C10,C11,C13,C09] count(lock.mu) == 1 && heldat(mu, sub.ANY)
+//@   ensures [one-critical-section|C02,C10,C11,C13,C09,C06] count(lock.mu) == 1 && heldat(mu, sub.ANY)
 //@   alias sub=NewSubscriber()
 //@   track call.NewSubscriber observers.* NewSubscriber().*
 //@   ensures [wraps-then-registers-when-open|C01,C03,C10,C14,C09,C06] atlock(status) == 0 ==> trace(call.NewSubscriber(destination), observers.Store(_, res(call.NewSubscriber)), sub.Add(_))
@@ -107,7 +107,7 @@ package ro
 //@   props C01 C02 C10 C13 C09 C06 C11
 //@   binds ctx value
 //@   scope ctx err last mu observerIndex observers s status value
-//@   ensures [one-critical-section|C02,C10,C13] count(lock.mu) == 1
+//@   ensures [one-critical-section|C02,C10,C13,C06] count(lock.mu) == 1
 //@   inline (*behaviorSubjectImpl).broadcastNext
 //@   track observers.* elem.* hook.* call.NewNotification*
 //@   ensures [open-stores-and-broadcasts|C01,C10,C09] atlock(status) == 0 ==> atunlock(last).A == ctx && atunlock(last).B == value && trace(observers.Range, elem.NextWithContext(ctx, value), observers.RangeEnd)
@@ -120,10 +120,10 @@ package ro
 //@   props C01 C02 C10 C13 C09 C06 C11
 //@   binds ctx err
 //@   scope ctx err last mu observerIndex observers s status
-//@   ensures [one-critical-section|C02,C10,C13] count(lock.mu) == 1
+//@   ensures [one-critical-section|C02,C10,C13,C06] count(lock.mu) == 1
 //@   inline (*behaviorSubjectImpl).broadcastError (*behaviorSubjectImpl).unsubscribeAll
 //@   track observers.* elem.* hook.* call.NewNotification*
-//@   ensures [open-stores-broadcasts-clears|C01,C10,C09,C11] atlock(status) == 0 ==> atunlock(status) == 1 && atunlock(err).A == ctx && atunlock(err).B == err && trace(observers.Range, elem.ErrorWithContext(ctx, err), observers.RangeEnd, observers.Range, observers.Delete(_), observers.RangeEnd)
+//@   ensures [open-stores-broadcasts-clears|C01,C10,C09,C11,C08] atlock(status) == 0 ==> atunlock(status) == 1 && atunlock(err).A == ctx && atunlock(err).B == err && trace(observers.Range, elem.ErrorWithContext(ctx, err), observers.RangeEnd, observers.Range, observers.Delete(_), observers.RangeEnd)
 //@   ensures [closed-drops|C01,C10,C09] atlock(status) != 0 ==> trace(call.NewNotificationError(err), hook.OnDroppedNotification(ctx, _), observers.Range, observers.Delete(_), observers.RangeEnd)
 //@   ensures [broadcast-under-lock|C02,C10,C13] heldat(mu, elem.ErrorWithContext)
 //@   ensures [a-closed-subject-keeps-its-stored-terminal|C10,C09,C01] atlock(status) != 0 ==> atunlock(status) == atlock(status) && atunlock(err).A == atlock(err).A && atunlock(err).B == atlock(err).B && atunlock(last).A == atlock(last).A && atunlock(last).B == atlock(last).B
@@ -132,10 +132,10 @@ package ro
 //@   props C01 C02 C10 C13 C09 C06 C11
 //@   binds ctx
 //@   scope ctx err last mu observerIndex observers s status
-//@   ensures [one-critical-section|C02,C10,C13] count(lock.mu) == 1
+//@   ensures [one-critical-section|C02,C10,C13,C06] count(lock.mu) == 1
 //@   inline (*behaviorSubjectImpl).broadcastComplete (*behaviorSubjectImpl).unsubscribeAll
 //@   track observers.* elem.* hook.* call.NewNotification*
-//@   ensures [open-stores-broadcasts-clears|C01,C10,C09,C11] atlock(status) == 0 ==> atunlock(status) == 2 && trace(observers.Range, elem.CompleteWithContext(ctx), observers.RangeEnd, observers.Range, observers.Delete(_), observers.RangeEnd)
+//@   ensures [open-stores-broadcasts-clears|C01,C10,C09,C11,C08] atlock(status) == 0 ==> atunlock(status) == 2 && trace(observers.Range, elem.CompleteWithContext(ctx), observers.RangeEnd, observers.Range, observers.Delete(_), observers.RangeEnd)
 //@   ensures [closed-drops|C01,C10,C09] atlock(status) != 0 ==> trace(call.NewNotificationComplete(), hook.OnDroppedNotification(ctx, _), observers.Range, observers.Delete(_), observers.RangeEnd)
 //@   ensures [broadcast-under-lock|C02,C10,C13] heldat(mu, elem.CompleteWithContext)
 //@   ensures [a-closed-subject-keeps-its-stored-terminal|C10,C09,C01] atlock(status) != 0 ==> atunlock(status) == atlock(status) && atunlock(err).A == atlock(err).A && atunlock(err).B == atlock(err).B && atunlock(last).A == atlock(last).A && atunlock(last).B == atlock(last).B
@@ -144,7 +144,7 @@ package ro
 //@   props C01 C02 C03 C10 C11 C13 C14 C09 C06
 //@   binds subscriberCtx destination
 //@   scope destination err index last mu observerIndex observers s status subscriberCtx
-//@   ensures [one-critical-section|C02,C10,C11,C13,C09] count(lock.mu) == 1 && heldat(mu, sub.ANY)
+//@   ensures [one-critical-section|C02,C10,C11,C13,C09,C06] count(lock.mu) == 1 && heldat(mu, sub.ANY)
 //@   alias sub=NewSubscriber()
 //@   track call.NewSubscriber observers.* NewSubscriber().*
 //@   ensures [open-replays-latest-then-registers|C01,C02,C03,C10,C14,C09,C06] atlock(status) == 0 ==> trace(call.NewSubscriber(destination), sub.NextWithContext(atlock(last).A, atlock(last).B), observers.Store(_, res(call.NewSubscriber)), sub.Add(_))
@@ -190,7 +190,7 @@ package ro
 //@   props C01 C02 C10 C13 C09 C06 C11
 //@   binds ctx value
 //@   scope ctx err hasValue mu observerIndex observers s status value
-//@   ensures [one-critical-section|C02,C10,C13] count(lock.mu) == 1
+//@   ensures [one-critical-section|C02,C10,C13,C06] count(lock.mu) == 1
 //@   track observers.* elem.* hook.* call.NewNotification*
 //@   ensures [open-only-remembers|C01,C10,C09] atlock(status) == 0 ==> atunlock(hasValue) == true && atunlock(value).A == ctx && atunlock(value).B == value && trace()
 //@   ensures [closed-drops|C01,C10,C09] atlock(status) != 0 ==> trace(call.NewNotificationNext(value), hook.OnDroppedNotification(ctx, _))
@@ -201,10 +201,10 @@ package ro
 //@   props C01 C02 C10 C13 C09 C06 C11
 //@   binds ctx err
 //@   scope ctx err hasValue mu observerIndex observers s status value
-//@   ensures [one-critical-section|C02,C10,C13] count(lock.mu) == 1
+//@   ensures [one-critical-section|C02,C10,C13,C06] count(lock.mu) == 1
 //@   inline (*asyncSubjectImpl).broadcastError (*asyncSubjectImpl).unsubscribeAll
 //@   track observers.* elem.* hook.* call.NewNotification*
-//@   ensures [open-stores-broadcasts-clears|C01,C10,C09,C11] atlock(status) == 0 ==> atunlock(status) == 1 && atunlock(err).A == ctx && atunlock(err).B == err && trace(observers.Range, elem.ErrorWithContext(ctx, err), observers.RangeEnd, observers.Range, observers.Delete(_), observers.RangeEnd)
+//@   ensures [open-stores-broadcasts-clears|C01,C10,C09,C11,C08] atlock(status) == 0 ==> atunlock(status) == 1 && atunlock(err).A == ctx && atunlock(err).B == err && trace(observers.Range, elem.ErrorWithContext(ctx, err), observers.RangeEnd, observers.Range, observers.Delete(_), observers.RangeEnd)
 //@   ensures [closed-drops|C01,C10,C09] atlock(status) != 0 ==> trace(call.NewNotificationError(err), hook.OnDroppedNotification(ctx, _), observers.Range, observers.Delete(_), observers.RangeEnd)
 //@   ensures [broadcast-under-lock|C02,C10,C13] heldat(mu, elem.ErrorWithContext)
 //@   ensures [a-closed-subject-keeps-its-stored-terminal|C10,C09,C01] atlock(status) != 0 ==> atunlock(status) == atlock(status) && atunlock(err).A == atlock(err).A && atunlock(err).B == atlock(err).B && atunlock(hasValue) == atlock(hasValue) && atunlock(value).A == atlock(value).A && atunlock(value).B == atlock(value).B
@@ -213,7 +213,7 @@ package ro
 //@   props C01 C02 C10 C13 C09 C06 C11
 //@   binds ctx
 //@   scope ctx err hasValue mu observerIndex observers s status value
-//@   ensures [one-critical-section|C02,C10,C13] count(lock.mu) == 1
+//@   ensures [one-critical-section|C02,C10,C13,C06] count(lock.mu) == 1
 //@   inline (*asyncSubjectImpl).broadcastComplete (*asyncSubjectImpl).broadcastNext (*asyncSubjectImpl).unsubscribeAll
 //@   track observers.* elem.* hook.* call.NewNotification*
 //@   ensures [open-with-value-emits-it-then-completes|C01,C10,C09] atlock(status) == 0 && atlock(hasValue) ==> atunlock(status) == 2 && trace(observers.Range, elem.NextWithContext(atlock(value).A, atlock(value).B), observers.RangeEnd, observers.Range, elem.CompleteWithContext(ctx), observers.RangeEnd, observers.Range, observers.Delete(_), observers.RangeEnd)
@@ -226,7 +226,7 @@ package ro
 //@   props C01 C02 C03 C10 C11 C13 C14 C09 C06
 //@   binds subscriberCtx destination
 //@   scope destination err hasValue index mu observerIndex observers s status subscriberCtx value
-//@   ensures [one-critical-section|C02,C10,C11,C13,C09] count(lock.mu) == 1 && heldat(mu, sub.ANY)
+//@   ensures [one-critical-section|C02,C10,C11,C13,C09,C06] count(lock.mu) == 1 && heldat(mu, sub.ANY)
 //@   alias sub=NewSubscriber()
 //@   track call.NewSubscriber observers.* NewSubscriber().*
 //@   ensures [wraps-then-registers-when-open|C01,C03,C10,C14,C09,C06] atlock(status) == 0 ==> trace(call.NewSubscriber(destination), observers.Store(_, res(call.NewSubscriber)), sub.Add(_))
@@ -274,11 +274,11 @@ package ro
 //@   props C01 C02 C10 C11 C13 C09 C06
 //@   binds s ctx value
 //@   scope bufferSize ctx err mu observerIndex observers s status value values varargs
-//@   ensures [one-critical-section|C02,C10,C13] count(lock.mu) == 1
+//@   ensures [one-critical-section|C02,C10,C13,C06] count(lock.mu) == 1
 //@   requires s.bufferSize >= -1
 //@   inline (*replaySubjectImpl).broadcastNext
 //@   track observers.* elem.* hook.* call.NewNotification*
-//@   ensures [open-broadcasts-to-all|C01,C10,C09,C11] atlock(status) == 0 ==> called(elem.NextWithContext) && arg(elem.NextWithContext, 0) == ctx && arg(elem.NextWithContext, 1) == value
+//@   ensures [open-broadcasts-to-all|C01,C10,C09,C11,C08] atlock(status) == 0 ==> called(elem.NextWithContext) && arg(elem.NextWithContext, 0) == ctx && arg(elem.NextWithContext, 1) == value
 //@   ensures [open-appends-when-room|C10,C09] atlock(status) == 0 && (s.bufferSize == -1 || len(atlock(values)) + 1 <= s.bufferSize) ==> len(atunlock(values)) == len(atlock(values)) + 1 && atunlock(values)[len(atlock(values))].A == ctx && atunlock(values)[len(atlock(values))].B == value && forall(j, 0, len(atlock(values)), atunlock(values)[j] == atlock(values)[j])
 //@   ensures [open-keeps-last-n-when-full|C10,C09] atlock(status) == 0 && s.bufferSize != -1 && s.bufferSize >= 1 && len(atlock(values)) + 1 > s.bufferSize ==> len(atunlock(values)) == s.bufferSize && atunlock(values)[s.bufferSize - 1].A == ctx && atunlock(values)[s.bufferSize - 1].B == value && forall(j, 0, s.bufferSize - 1, atunlock(values)[j] == atlock(values)[j + len(atlock(values)) + 1 - s.bufferSize])
 //@   ensures [a-buffer-of-size-zero-keeps-nothing|C10,C11] atlock(status) == 0 && s.bufferSize == 0 ==> len(atunlock(values)) == 0
@@ -291,10 +291,10 @@ package ro
 //@   props C01 C02 C10 C13 C09 C06 C11
 //@   binds ctx err
 //@   scope bufferSize ctx err mu observerIndex observers s status values
-//@   ensures [one-critical-section|C02,C10,C13] count(lock.mu) == 1
+//@   ensures [one-critical-section|C02,C10,C13,C06] count(lock.mu) == 1
 //@   inline (*replaySubjectImpl).broadcastError (*replaySubjectImpl).unsubscribeAll
 //@   track observers.* elem.* hook.* call.NewNotification*
-//@   ensures [open-stores-broadcasts-clears|C01,C10,C09,C11] atlock(status) == 0 ==> atunlock(status) == 1 && atunlock(err).A == ctx && atunlock(err).B == err && trace(observers.Range, elem.ErrorWithContext(ctx, err), observers.RangeEnd, observers.Range, observers.Delete(_), observers.RangeEnd)
+//@   ensures [open-stores-broadcasts-clears|C01,C10,C09,C11,C08] atlock(status) == 0 ==> atunlock(status) == 1 && atunlock(err).A == ctx && atunlock(err).B == err && trace(observers.Range, elem.ErrorWithContext(ctx, err), observers.RangeEnd, observers.Range, observers.Delete(_), observers.RangeEnd)
 //@   ensures [closed-drops|C01,C10,C09] atlock(status) != 0 ==> trace(call.NewNotificationError(err), hook.OnDroppedNotification(ctx, _), observers.Range, observers.Delete(_), observers.RangeEnd)
 //@   ensures [broadcast-under-lock|C02,C10,C13] heldat(mu, elem.ErrorWithContext)
 //@   ensures [a-closed-subject-keeps-its-stored-terminal|C10,C09,C01] atlock(status) != 0 ==> atunlock(status) == atlock(status) && atunlock(err).A == atlock(err).A && atunlock(err).B == atlock(err).B && len(atunlock(values)) == len(atlock(values))
@@ -303,10 +303,10 @@ package ro
 //@   props C01 C02 C10 C13 C09 C06 C11
 //@   binds ctx
 //@   scope bufferSize ctx err mu observerIndex observers s status values
-//@   ensures [one-critical-section|C02,C10,C13] count(lock.mu) == 1
+//@   ensures [one-critical-section|C02,C10,C13,C06] count(lock.mu) == 1
 //@   inline (*replaySubjectImpl).broadcastComplete (*replaySubjectImpl).unsubscribeAll
 //@   track observers.* elem.* hook.* call.NewNotification*
-//@   ensures [open-stores-broadcasts-clears|C01,C10,C09,C11] atlock(status) == 0 ==> atunlock(status) == 2 && trace(observers.Range, elem.CompleteWithContext(ctx), observers.RangeEnd, observers.Range, observers.Delete(_), observers.RangeEnd)
+//@   ensures [open-stores-broadcasts-clears|C01,C10,C09,C11,C08] atlock(status) == 0 ==> atunlock(status) == 2 && trace(observers.Range, elem.CompleteWithContext(ctx), observers.RangeEnd, observers.Range, observers.Delete(_), observers.RangeEnd)
 //@   ensures [closed-drops|C01,C10,C09] atlock(status) != 0 ==> trace(call.NewNotificationComplete(), hook.OnDroppedNotification(ctx, _), observers.Range, observers.Delete(_), observers.RangeEnd)
 //@   ensures [broadcast-under-lock|C02,C10,C13] heldat(mu, elem.CompleteWithContext)
 //@   ensures [a-closed-subject-keeps-its-stored-terminal|C10,C09,C01] atlock(status) != 0 ==> atunlock(status) == atlock(status) && atunlock(err).A == atlock(err).A && atunlock(err).B == atlock(err).B && len(atunlock(values)) == len(atlock(values))
@@ -315,7 +315,7 @@ package ro
 //@   props C01 C02 C03 C10 C11 C13 C14 C09 C06
 //@   binds subscriberCtx destination
 //@   scope bufferSize destination err index mu observerIndex observers s status subscriberCtx values
-//@   ensures [one-critical-section|C02,C10,C11,C13,C09] count(lock.mu) == 1 && heldat(mu, sub.ANY) && heldat(mu, loop.ANY)
+//@   ensures [one-critical-section|C02,C10,C11,C13,C09,C06] count(lock.mu) == 1 && heldat(mu, sub.ANY) && heldat(mu, loop.ANY)
 //@   alias sub=NewSubscriber()
 //@   track call.NewSubscriber observers.* NewSubscriber().* loop.*
 //@   ensures [open-replays-buffer-then-registers|C01,C02,C03,C10,C14,C09,C06] atlock(status) == 0 ==> trace(call.NewSubscriber(destination), loop.L0, observers.Store(_, res(call.NewSubscriber)), sub.Add(_))
@@ -365,7 +365,7 @@ package ro
 //@   props C01 C02 C10 C13 C06 C09
 //@   binds s ctx value
 //@   scope bufferSize ctx err mu observer s status value values varargs
-//@   ensures [one-critical-section|C02,C10,C13] count(lock.mu) == 1
+//@   ensures [one-critical-section|C02,C10,C13,C06] count(lock.mu) == 1
 //@   requires s.bufferSize >= -1
 //@   track observer.* hook.* call.NewNotification*
 //@   ensures [open-with-subscriber-delivers|C01,C10,C09] atlock(status) == 0 && atlock(observer) != nil ==> trace(observer.NextWithContext(ctx, value)) && len(atunlock(values)) == len(atlock(values))
@@ -380,7 +380,7 @@ package ro
 //@   props C01 C02 C10 C13 C06 C09
 //@   binds ctx err
 //@   scope bufferSize ctx err mu observer s status values
-//@   ensures [one-critical-section|C02,C10,C13] count(lock.mu) == 1
+//@   ensures [one-critical-section|C02,C10,C13,C06] count(lock.mu) == 1
 //@   ensures [delivers-outside-the-subject-lock|C06,C10] notheldat(mu, observer.ErrorWithContext)
 //@   track observer.* hook.* call.NewNotification*
 //@   ensures [open-stores-error|C01,C10,C09] atlock(status) == 0 ==> atunlock(status) == 1 && atunlock(err).A == ctx && atunlock(err).B == err && atunlock(observer) == nil
@@ -392,7 +392,7 @@ package ro
 //@   props C01 C02 C10 C13 C06 C09
 //@   binds ctx
 //@   scope bufferSize ctx err mu observer s status values
-//@   ensures [one-critical-section|C02,C10,C13] count(lock.mu) == 1
+//@   ensures [one-critical-section|C02,C10,C13,C06] count(lock.mu) == 1
 //@   ensures [delivers-outside-the-subject-lock|C06,C10] notheldat(mu, observer.CompleteWithContext)
 //@   track observer.* hook.* call.NewNotification*
 //@   ensures [open-stores-completion|C01,C10] atlock(status) == 0 ==> atunlock(status) == 2 && atunlock(observer) == nil
@@ -404,7 +404,7 @@ package ro
 //@   props C01 C03 C10 C13 C02 C05 C20 C08 C09 C06
 //@   binds subscriberCtx destination
 //@   scope attached bufferSize destination err mu observer s slicelit status subscriberCtx subscription values
-//@   ensures [one-critical-section|C05,C08,C10,C13,C20,C09] count(lock.mu) == 1 && heldat(mu, sub.ErrorWithContext) && heldat(mu, sub.CompleteWithContext) && heldat(mu, loop.ANY)
+//@   ensures [one-critical-section|C05,C08,C10,C13,C20,C09,C06] count(lock.mu) == 1 && heldat(mu, sub.ErrorWithContext) && heldat(mu, sub.CompleteWithContext) && heldat(mu, loop.ANY)
 //@   ensures [teardown-registered-outside-the-subject-lock-because-a-closed-subscriber-runs-it-at-once|C06,C03,C10] notheldat(mu, sub.Add)
 //@   alias sub=subscription
 //@   track call.NewSubscriber subscription.* loop.*
